@@ -22,6 +22,7 @@ fn main() {
         let case = case::Case::parse(line);
         let trace = match case.kind.as_str() {
             "ring" => ring::run(&case),
+            "fsring" => ring::run_fs(&case),
             "uni"  => uni::run(&case),
             other  => panic!("unknown case kind '{other}'"),
         };
